@@ -362,6 +362,15 @@ class Interp(ExprMixin):
             return self.call_function(q, obj, args, kwargs, node)
         if isinstance(obj, SData):
             dt = obj.ty.dt
+            # dynamic dispatch on a datatype value with a uniform contract (each constructor's real method is verified against it)
+            key = (dt.name, name, args[0].cls if args and isinstance(args[0], SObj) else None)
+            uq = getattr(self.reg, "dt_methods", {}).get(key)
+            if uq is not None and self.frame.qualname.split("#")[0] not in getattr(self.reg, "dt_method_impls", {}).get(key, ()):
+                c = self.reg.contracts[uq]
+                fnode, modname, cls, path, h = self.src.find(c.of)
+                env = self.bind_params(fnode, obj, args, kwargs, node, True)
+                env[fnode.args.args[0].arg] = obj
+                return self.apply_contract(c, uq, fnode, modname, cls, env, node)
             cands = [c for c in dt.ctors if c.real and self.src.class_has_method(c.real, name)]
             c = self.resolve_ctor(obj, cands, node, f"method {name}")
             return self.call_function(c.real + "." + name, obj, args, kwargs, node)
